@@ -197,7 +197,12 @@ fn vstream(profile: &str, seed: u64, start: u64, count: u64, verbose: bool, tall
                     recw::normalize(&real_items())
                 } else {
                     let cfg = synth::SynthCfg { not_found: idx % 3 == 0, ..synth::SynthCfg::default() };
-                    synth::generate(seed, idx, cfg, false, &gen_prof).items
+                    synth::generate_with(seed, idx, cfg, false, &gen_prof, |feats, r| {
+                        if idx % 2 == 0 {
+                            synth::repeat_step_texts(feats, r);
+                        }
+                    })
+                    .items
                 };
                 os::c12(&items, tally, idx, if real { "real run, normalized" } else { "synthetic" });
             }
@@ -220,6 +225,9 @@ fn vstream(profile: &str, seed: u64, start: u64, count: u64, verbose: bool, tall
                 } else {
                     let cfg = synth::SynthCfg { not_found: idx % 4 == 0, ..synth::SynthCfg::default() };
                     synth::generate_with(seed, idx, cfg, idx % 2 == 0, &gen_prof, |feats, r| {
+                        if idx % 5 == 1 {
+                            synth::repeat_step_texts(feats, r);
+                        }
                         synth::decorate(feats, r, cdata);
                         for (i, f) in feats.iter_mut().enumerate() {
                             if pathless && i % 2 == 0 {
